@@ -12,14 +12,18 @@ PROPERTY = "C06"
 RULE = ("match: first array = distinct values of one dtype (i1..u8 incl. type limits, f4/f8 finite "
         "incl. negatives and -0.0, S/U strings of mixed length) in drawn order, second array = drawn "
         "mixture of members of the first (with repeats), values below/above its range and in its gaps; "
-        "sizes 1..60, scalars, lists, presorted=True on sorted input, repeated first array (must raise). "
+        "sizes 1..60, scalars, lists, presorted=True on sorted input, repeated first array (must raise); "
+        "match_wide: first and second array of different integer dtypes with second-array values that alias onto "
+        "members of the first when cast to its type, and second arrays of 1e3..1e5 elements (PCG64-expanded from "
+        "a drawn seed). "
         "unique/rem_dup: tie-heavy arrays whose first element is often not the minimum, flags with ties. "
         "Non-trivial: match with some-but-not-all of a2 matching and (a repeat in a2 or a probe outside "
         "a1's range); de-duplication with >=2 distinct values and >=1 tie. Distinct = distinct case JSON.")
 ASSUMPTIONS = [
     "floats are finite (NaN never equals itself, the statement speaks of equal elements)",
     "strings contain no NUL and no white space (numpy fixed-width comparison semantics are not esutil's)",
-    "both arrays of a match call share one dtype kind",
+    "both arrays of a match call share one dtype kind; sub-check match_wide mixes integer dtypes whose numpy "
+    "common type is an integer (u8 against a signed type promotes to float64 and is not generated)",
 ]
 
 INT_TYPES = ["i1", "u1", "i2", "u2", "i4", "u4", "i8", "u8"]
@@ -253,8 +257,121 @@ def classify_dedup(case):
     return labs
 
 
+# --------------------------------------------------------------------------------------
+# sub-check: mixed integer dtypes and large second arrays
+# --------------------------------------------------------------------------------------
+# pairs of integer dtypes whose numpy common type is an integer type (comparisons and searches are exact);
+# u8 against a signed type promotes to float64 in numpy and is outside what esutil can be held to
+def _exact_pair(d1, d2):
+    return np.result_type(np.dtype(d1), np.dtype(d2)).kind in "iu"
+
+
+MIXED_PAIRS = [(a, b) for a in INT_TYPES for b in INT_TYPES if a != b and _exact_pair(a, b)]
+BIG_SIZES = [1001, 4097, 10001, 20011, 65537, 100003]
+
+
+@st.composite
+def wide_cases(draw):
+    kind = draw(st.sampled_from(["mixed", "mixed", "large", "large-mixed"]))
+    if kind == "large":
+        d1 = d2 = draw(st.sampled_from(["i4", "i8", "u2", "f8"]))
+    else:
+        d1, d2 = draw(st.sampled_from(MIXED_PAIRS))
+    if d1 == "f8":
+        el1 = st.integers(-50, 50).map(float)
+    else:
+        el1 = _elements(d1)
+    a1 = draw(st.lists(el1, min_size=1, max_size=draw(st.sampled_from([1, 3, 8, 30])), unique=True))
+    case = {"kind": kind, "dt1": d1, "dt2": d2, "a1": a1,
+            "mode": draw(st.sampled_from(["plain", "plain", "presorted", "multi"]))}
+    if d2 == "f8":
+        probes = [float(v) for v in a1] + [v + 0.5 for v in a1] + [-1e3, 1e3]
+    else:
+        i1, i2 = np.iinfo(d1 if d1 != "f8" else "i8"), np.iinfo(d2)
+        span = int(i1.max) - int(i1.min) + 1
+        cand = []
+        for v in a1:
+            # the value itself and the values that alias onto it when cast to the first array's type
+            cand += [v, v + span, v - span, v + 2 * span, -v - 1, v + 1, v - 1]
+        cand += [int(i2.min), int(i2.max), 0, -1]
+        probes = sorted(set(c for c in cand if int(i2.min) <= c <= int(i2.max)))
+    case["probes"] = probes
+    if kind == "mixed":
+        case["a2"] = draw(st.lists(st.sampled_from(probes), min_size=1, max_size=20))
+    else:
+        case["n2"] = draw(st.sampled_from(BIG_SIZES)) + draw(st.integers(-3, 3))
+        case["seed"] = draw(st.integers(0, 2**32 - 1))
+        case["sorted2"] = draw(st.sampled_from([False, False, False, True]))
+    return case
+
+
+def _wide_arrays(case):
+    d1, d2 = case["dt1"], case["dt2"]
+    v1 = list(case["a1"])
+    if case["mode"] == "presorted":
+        v1 = sorted(v1)
+    a1 = np.array(v1, dtype=d1)
+    if "a2" in case:
+        v2 = list(case["a2"])
+    else:
+        rng = np.random.Generator(np.random.PCG64(case["seed"]))
+        pr = case["probes"]
+        v2 = [pr[i] for i in rng.integers(0, len(pr), size=case["n2"]).tolist()]
+        if case["sorted2"]:
+            v2 = sorted(v2)
+    a2 = np.array(v2, dtype=d2)
+    return v1, v2, a1, a2
+
+
+def check_wide(case, ctx):
+    import esutil.numpy_util as nu
+    v1, v2, a1, a2 = _wide_arrays(case)
+    if case["mode"] == "presorted":
+        r = must(nu.match, a1, a2, presorted=True)
+    elif case["mode"] == "multi":
+        r = must(nu.match_multi, a1, a2)
+    else:
+        r = must(nu.match, a1, a2)
+    require(isinstance(r, tuple) and len(r) == 2, "match must return two index arrays, got %r", r)
+    i1, i2 = np.asarray(r[0]), np.asarray(r[1])
+    pos1 = dict((v, i) for i, v in enumerate(v1))          # Python ints / floats: exact equality
+    exp1, exp2 = [], []
+    for j, v in enumerate(v2):
+        if v in pos1:
+            exp1.append(pos1[v])
+            exp2.append(j)
+    require(i1.ndim == 1 and i2.ndim == 1 and i1.size == i2.size, "index arrays differ in length")
+    require(i1.size == len(exp1), "match(%s[%d], %s[%d]) returned %d pairs, the model has %d", case["dt1"],
+            len(v1), case["dt2"], len(v2), i1.size, len(exp1))
+    if i1.size:
+        bad = np.nonzero((i1 != np.array(exp1)) | (i2 != np.array(exp2)))[0]
+        if bad.size:
+            k = int(bad[0])
+            raise Violation("match(%s[%d], %s[%d]): pair %d is (%d,%d) = (%r,%r), the model (ordered by position in "
+                            "the second array) has (%d,%d) = (%r,%r)" % (
+                                case["dt1"], len(v1), case["dt2"], len(v2), k, i1[k], i2[k],
+                                v1[int(i1[k])] if 0 <= i1[k] < len(v1) else None,
+                                v2[int(i2[k])] if 0 <= i2[k] < len(v2) else None,
+                                exp1[k], exp2[k], v1[exp1[k]], v2[exp2[k]]))
+
+
+def classify_wide(case):
+    labs = ["kind:" + case["kind"], "pair:%s/%s" % (case["dt1"], case["dt2"]), "mode:" + case["mode"]]
+    if case["kind"] != "large":
+        labs.append("nt:mixed-integer-dtypes")
+        d1, d2 = np.iinfo(case["dt1"]), np.iinfo(case["dt2"])
+        if "a2" in case and any(not (int(d1.min) <= v <= int(d1.max)) for v in case["a2"]):
+            labs.append("a2-value-not-representable-in-dtype1")
+    if "n2" in case:
+        labs.append("nt:large-second-array")
+        labs.append("n2:%s" % ("<=10000" if case["n2"] <= 10000 else "<=65536" if case["n2"] <= 65536 else ">65536"))
+    return labs
+
+
 SUBCHECKS = [
     Subcheck("match", match_cases, check_match, classify_match, quick=6000, thorough=300000,
+             journal=False),
+    Subcheck("match_wide", wide_cases, check_wide, classify_wide, quick=1500, thorough=60000,
              journal=False),
     Subcheck("unique", lambda: dedup_cases(False), check_unique, classify_dedup, quick=3000,
              thorough=100000, journal=False),
